@@ -338,6 +338,9 @@ fn die(msg: &str) -> ! {
 
 // ---------------------------------------------------------------- generic rules (visitor)
 
+const BATCH_WRITES: &[&str] = &["save", "delete", "lock_output", "save_tx_log_entry", "save_child_index",
+	"save_last_confirmed_height", "next_tx_log_id", "save_private_context", "delete_private_context",
+	"commit", "save_acct_path", "save_last_scanned_block", "save_init_status"];
 const LOG_MACROS: &[&str] = &[
 	"debug", "trace", "info", "warn", "error", "println", "eprintln", "print",
 ];
@@ -362,6 +365,8 @@ struct FnVisitor<'c> {
 	/// S1: spans of write-batch operation calls, and spans of expressions directly under `?`
 	batch_ops: Vec<(usize, usize, String)>,
 	tried: Vec<(usize, usize)>,
+	scopes: Vec<(usize, usize, String, usize)>,
+	closure_depth: usize,
 }
 
 impl<'c> FnVisitor<'c> {
@@ -584,6 +589,61 @@ fn split_top_commas(ts: &proc_macro2::TokenStream) -> Vec<(usize, usize)> {
 	out
 }
 
+/// S2: lexical scopes in which a write batch is live and not yet committed
+#[derive(Default)]
+struct BatchScopes {
+	/// (scope start = end of the `let … = X.batch(..)?;` statement, scope end = enclosing block end, variable name, position of `.commit()`)
+	scopes: Vec<(usize, usize, String, usize)>,
+}
+impl<'ast> Visit<'ast> for BatchScopes {
+	fn visit_block(&mut self, b: &'ast syn::Block) {
+		let (_, bend) = br(b.span());
+		for st in &b.stmts {
+			if let syn::Stmt::Local(l) = st {
+				if let (syn::Pat::Ident(pi), Some(init)) = (&l.pat, &l.init) {
+					let mut e: &syn::Expr = &init.expr;
+					if let syn::Expr::Try(t) = e {
+						e = &t.expr;
+					}
+					if let syn::Expr::MethodCall(mc) = e {
+						let m = mc.method.to_string();
+						// the wallet's write batch: `X.batch(keychain_mask)` / `X.batch_no_mask()` (not the raw store's `db.batch()`)
+						if (m == "batch" && mc.args.len() == 1) || (m == "batch_no_mask" && mc.args.is_empty()) {
+							let (_, send) = br(st.span());
+							let name = pi.ident.to_string();
+							// first `<name>.commit()` textually after the binding
+							let mut f = CommitFinder { name: name.clone(), pos: None, after: send };
+							f.visit_block(b);
+							self.scopes.push((send, bend, name, f.pos.unwrap_or(bend)));
+						}
+					}
+				}
+			}
+		}
+		syn::visit::visit_block(self, b);
+	}
+}
+struct CommitFinder {
+	name: String,
+	pos: Option<usize>,
+	after: usize,
+}
+impl<'ast> Visit<'ast> for CommitFinder {
+	fn visit_expr_method_call(&mut self, mc: &'ast syn::ExprMethodCall) {
+		if mc.method == "commit" {
+			if let syn::Expr::Path(p) = &*mc.receiver {
+				if p.path.is_ident(&self.name) {
+					let (s, _) = br(mc.span());
+					if s >= self.after && self.pos.map(|p| s < p).unwrap_or(true) {
+						self.pos = Some(s);
+					}
+				}
+			}
+		}
+		syn::visit::visit_expr_method_call(self, mc);
+	}
+}
+
 impl<'ast, 'c> Visit<'ast> for FnVisitor<'c> {
 	fn visit_attribute(&mut self, a: &'ast syn::Attribute) {
 		let (s, e) = br(a.span());
@@ -693,14 +753,40 @@ impl<'ast, 'c> Visit<'ast> for FnVisitor<'c> {
 	}
 	fn visit_expr_try(&mut self, t: &'ast syn::ExprTry) {
 		self.tried.push(br(t.expr.span()));
+		let (ws, we) = br(t.span());
+		if self.closure_depth == 0 {
+			if let Some((_, _, name, _)) = self.scopes.iter().find(|(a, b, _, c)| ws >= *a && we <= *b && ws < *c).cloned() {
+				// is the operand itself an operation of that batch?  (those are covered by S1)
+				let on_batch = match &*t.expr {
+					syn::Expr::MethodCall(mc) => matches!(&*mc.receiver, syn::Expr::Path(p) if p.path.is_ident(&name)) && BATCH_WRITES.contains(&mc.method.to_string().as_str()),
+					_ => false,
+				};
+				if !on_batch {
+					// S2 / L18: `E?` desugared (Rust reference) so that the early exit can carry the ghost fact that the
+					// still-uncommitted batch is abandoned
+					let (es, ee) = br(t.expr.span());
+					self.push(ws, we, vec![
+						Part::Text("(match ".into()), Part::Src(es, ee),
+						Part::Text(format!(" {{ Ok(vx_ok) => vx_ok, Err(vx_err) => {{ proof {{ vf_batch_abandoned(&*{}); }} return Err(core::convert::From::from(vx_err)); }} }})", name)),
+					], "S2");
+				}
+			}
+		}
 		syn::visit::visit_expr_try(self, t);
+	}
+	fn visit_expr_return(&mut self, r: &'ast syn::ExprReturn) {
+		let (ws, we) = br(r.span());
+		if self.closure_depth == 0 {
+			if let Some((_, _, name, _)) = self.scopes.iter().find(|(a, b, _, c)| ws >= *a && we <= *b && ws < *c).cloned() {
+				self.push(ws, ws, vec![Part::Text(format!("{{ proof {{ vf_batch_abandoned(&*{}); }} ", name))], "S2");
+				self.push(we, we, vec![Part::Text(" }".into())], "S2");
+			}
+		}
+		syn::visit::visit_expr_return(self, r);
 	}
 	fn visit_expr_method_call(&mut self, mc: &'ast syn::ExprMethodCall) {
 		let m = mc.method.to_string();
 		let (ws, we) = br(mc.span());
-		const BATCH_WRITES: &[&str] = &["save", "delete", "lock_output", "save_tx_log_entry", "save_child_index",
-			"save_last_confirmed_height", "next_tx_log_id", "save_private_context", "delete_private_context",
-			"commit", "save_acct_path", "save_last_scanned_block", "save_init_status"];
 		if BATCH_WRITES.contains(&m.as_str()) {
 			if let syn::Expr::Path(p) = &*mc.receiver {
 				if p.path.segments.len() == 1 && p.path.segments[0].ident.to_string().contains("batch") {
@@ -794,7 +880,9 @@ impl<'ast, 'c> Visit<'ast> for FnVisitor<'c> {
 				self.push(ins, ins, parts, "A3");
 			}
 		}
+		self.closure_depth += 1;
 		syn::visit::visit_expr_closure(self, c);
+		self.closure_depth -= 1;
 	}
 }
 
@@ -1019,6 +1107,12 @@ fn fn_edits(
 		strip_async: sig.asyncness.is_some(),
 		batch_ops: vec![],
 		tried: vec![],
+		scopes: {
+			let mut bs = BatchScopes::default();
+			bs.visit_block(block);
+			bs.scopes
+		},
+		closure_depth: 0,
 	};
 	for a in attrs {
 		v.visit_attribute(a);
